@@ -8,9 +8,12 @@
    - `_EMPTY_RE.fullmatch`, `_COUNTER_RE.search`, `_TIMECODE_RE.search` -> `is_blank`, `has_digit`,
                                            `search_tc` (recognisers; `\s`, `\d` from Gen/SrtTables.v)
    - the COUNTER/TC/TEXT/TEXT_MORE loop -> `step` / `run` (the `None` sentinel is `at_eof`)
-   - `.strip('\r\n').replace(...)` x7   -> `strip_crlf`, `replace`, `rewrite_text`
+   - `.strip('\r\n').replace(...)` x13  -> `strip_crlf`, `replace`, `rewrite_text`
+   - `line.rstrip("\r\n") + "\n"`        -> `rstrip_crlf line ++ [10]` in `step`
    - `_TextParser.handle_starttag/endtag/data` -> `handle_start`, `handle_end`, `handle_data` on a zipper
-                                           (`cursor`) that also follows `parent()` above the paragraph
+                                           (`cursor`: the open spans innermost first, each with the tag name that
+                                           `open_tags` holds for it; an end tag that does not name the innermost
+                                           open span is ignored, so the cursor never leaves the paragraph)
    - `HTMLParser.feed/close` (html.parser, convert_charrefs=True) -> `tokenize`: a hand-written
      tokenizer for start tags with attributes, end tags, self-closing tags, character references
      (full `html.unescape` over the generated tables) and data.  Constructs it does not transcribe
@@ -134,6 +137,7 @@ Definition is_crlf (c : Z) : bool := (c =? 13) || (c =? 10).
 Fixpoint lstrip_crlf (s : text) : text :=
   match s with c :: s' => if is_crlf c then lstrip_crlf s' else s | [] => [] end.
 Definition strip_crlf (s : text) : text := rev (lstrip_crlf (rev (lstrip_crlf s))).
+Definition rstrip_crlf (s : text) : text := rev (lstrip_crlf (rev s)).           (* line.rstrip("\r\n") *)
 
 (* str.replace(pat, rep) for a non-empty pat: leftmost, non-overlapping *)
 Fixpoint replace_go (pat rep : text) (skip : nat) (s : text) : text :=
@@ -154,15 +158,23 @@ Definition t_underline : text := [117;110;100;101;114;108;105;110;101].
 Definition brace (closing : bool) (n : text) : text := 123 :: (if closing then [47] else []) ++ n ++ [125].
 Definition angle (closing : bool) (n : text) : text := 60 :: (if closing then [47] else []) ++ n ++ [62].
 
+Definition t_b : text := [98].  Definition t_i : text := [105].  Definition t_u : text := [117].
+
 Definition rewrite_text (s : text) : text :=
   let s := strip_crlf s in
-  let s := replace [92;110;92;114] [10] s in      (* r"\n\r": backslash n backslash r, four characters *)
+  let s := replace [10;13] [10] s in              (* "\n\r": LF CR *)
   let s := replace (brace false t_bold) (angle false t_bold) s in
   let s := replace (brace true t_bold) (angle true t_bold) s in
   let s := replace (brace false t_italic) (angle false t_italic) s in
   let s := replace (brace true t_italic) (angle true t_italic) s in
   let s := replace (brace false t_underline) (angle false t_underline) s in
-  replace (brace true t_underline) (angle true t_underline) s.
+  let s := replace (brace true t_underline) (angle true t_underline) s in
+  let s := replace (brace false t_b) (angle false t_b) s in
+  let s := replace (brace true t_b) (angle true t_b) s in
+  let s := replace (brace false t_i) (angle false t_i) s in
+  let s := replace (brace true t_i) (angle true t_i) s in
+  let s := replace (brace false t_u) (angle false t_u) s in
+  replace (brace true t_u) (angle true t_u) s.
 
 (* ------------------------------------------------------------------ html.unescape *)
 Fixpoint assoc {B} (k : text) (l : list (text * B)) : option B :=
@@ -270,7 +282,7 @@ Definition attr := (text * option text)%type.
 Inductive token :=
 | TData (t : text)                       (* handle_data(unescape(...)) *)
 | TStart (name : text) (attrs : list attr)
-| TEnd
+| TEnd (name : text)                     (* handle_endtag(name), name lower-cased by the parser *)
 | TBad.                                  (* construct outside the transcribed grammar *)
 
 Inductive astate :=
@@ -323,6 +335,7 @@ Fixpoint attrs_go (st : astate) (acc : list attr) (n : nat) (s : text) : option 
       end
   end.
 
+Definition is_ascii (t : text) : bool := forallb (fun c => c <? 128) t.
 Definition tagname_char (c : Z) : bool :=        (* [^\t\n\r\f />\x00] *)
   negb ((c =? 9) || (c =? 10) || (c =? 13) || (c =? 12) || (c =? 32) || (c =? 47) || (c =? 62) || (c =? 0)).
 
@@ -342,10 +355,11 @@ Definition parse_start (r : text) : markup :=
   | [] => MBad
   | c :: _ =>
       if c =? 0 then MBad
+      else if negb (is_ascii name) then MBad        (* str.lower beyond ASCII is not transcribed *)
       else if text_eqb lname t_script || text_eqb lname t_style then MBad
       else match attrs_go SA [] O r1 with
            | Some (attrs, selfclosing, n) =>
-               MToks (TStart lname attrs :: (if selfclosing then [TEnd] else [])) (1 + length name + n)
+               MToks (TStart lname attrs :: (if selfclosing then [TEnd lname] else [])) (1 + length name + n)
            | None => MBad
            end
   end.
@@ -357,23 +371,31 @@ Fixpoint find_gt (s : text) : option text :=     (* text before the first '>' *)
   end.
 Definition endname_char (c : Z) : bool :=        (* [-.a-zA-Z0-9:_] *)
   is_alpha c || is_digit c || (c =? 45) || (c =? 46) || (c =? 58) || (c =? 95).
-(* endtagfind on "</" body ">" when body does not start with a letter: \s* name \s* *)
-Definition endtag_spaced (body : text) : bool :=
+(* endtagfind on "</" body ">" :  white space, a name [a-zA-Z][-.a-zA-Z0-9:_]*, white space; the name when it matches *)
+Definition endtag_find (body : text) : option text :=
   match skip_spaces body with
-  | c :: b' => is_alpha c && (match skip_spaces (snd (take_while endname_char b')) with [] => true | _ => false end)
-  | [] => false
+  | c :: b' => if is_alpha c then
+                 let '(nm, r) := take_while endname_char b' in
+                 match skip_spaces r with [] => Some (c :: nm) | _ => None end
+               else None
+  | [] => None
   end.
+Definition end_token (name : text) (n : nat) : markup :=
+  if is_ascii name then MToks [TEnd (lower name)] n else MBad.
 (* r = text after "</" *)
 Definition parse_end (r : text) : markup :=
   match find_gt r with
   | None => MBad
   | Some body =>
       let n := (2 + length body + 1)%nat in
-      match body with
-      | [] => MToks [] n
-      | c :: _ => if is_alpha c then MToks [TEnd] n
-                  else if endtag_spaced body then MToks [TEnd] n
-                  else MToks [] n
+      match endtag_find body with
+      | Some name => end_token name n                               (* endtagfind matched *)
+      | None =>
+          match body with
+          | c :: _ => if is_alpha c then end_token (fst (take_while tagname_char body)) n    (* tagfind_tolerant *)
+                      else MToks [] n                               (* "</>" or a bogus comment *)
+          | [] => MToks [] n
+          end
       end
   end.
 
@@ -465,20 +487,18 @@ Definition parse_color (v : text) : outcome rgba :=
        end.
 
 (* ------------------------------------------------------------------ _TextParser *)
-(* self.parent: inside the paragraph (open spans innermost first, each with its style and the
-   children it has so far; then the paragraph's children so far), or above it after stray end tags *)
-Inductive above := ADiv | ABody | ANone.
+(* self.parent / self.open_tags: the open spans innermost first, each with the tag name recorded for it, its
+   style and the children it has so far; then the paragraph's children so far *)
+Definition frame := (text * sstyle * list elem)%type.
 Inductive cursor :=
-| CP (frames : list (sstyle * list elem)) (pk : list elem)
-| CAbove (a : above) (pk : list elem).
+| CP (frames : list frame) (pk : list elem).
 
-Definition push_kids (frames : list (sstyle * list elem)) (pk : list elem) (es : list elem) : cursor :=
+Definition push_kids (frames : list frame) (pk : list elem) (es : list elem) : cursor :=
   match frames with
-  | (s, k) :: fs => CP ((s, k ++ es) :: fs) pk
+  | (n, s, k) :: fs => CP ((n, s, k ++ es) :: fs) pk
   | [] => CP [] (pk ++ es)
   end.
 
-Definition t_b : text := [98].  Definition t_i : text := [105].  Definition t_u : text := [117].
 Definition t_font : text := [102;111;110;116].  Definition t_color : text := [99;111;108;111;114].
 
 Fixpoint find_color (attrs : list attr) : option (option text) :=
@@ -507,20 +527,16 @@ Definition handle_start (tag : text) (attrs : list attr) (cur : cursor) : outcom
       (* the span is created and attached before its style is computed; an exception in between
          propagates out of to_model, so the order is not observable *)
       match tag_style tag attrs with
-      | Ok st => Ok (CP ((st, []) :: frames) pk)
+      | Ok st => Ok (CP ((tag, st, []) :: frames) pk)
       | RetNone => RetNone | Raised e => Raised e | Unmodelled => Unmodelled
       end
-  | CAbove ADiv _ | CAbove ABody _ => Raised ETypeError     (* Div/Body.push_child(Span) *)
-  | CAbove ANone _ => Raised EAttributeError                 (* None.get_doc() *)
   end.
 
-Definition handle_end (attached : bool) (cur : cursor) : outcome cursor :=
+(* an end tag closes the innermost open span when it carries that span's tag name and is ignored otherwise *)
+Definition handle_end (tag : text) (cur : cursor) : outcome cursor :=
   match cur with
-  | CP ((s, k) :: fs) pk => Ok (push_kids fs pk [ESpan s k])
-  | CP [] pk => Ok (CAbove (if attached then ADiv else ANone) pk)   (* P.parent() *)
-  | CAbove ADiv pk => Ok (CAbove ABody pk)
-  | CAbove ABody pk => Ok (CAbove ANone pk)
-  | CAbove ANone _ => Raised EAttributeError                 (* None.parent() *)
+  | CP ((n, s, k) :: fs) pk => if text_eqb n tag then Ok (push_kids fs pk [ESpan s k]) else Ok cur
+  | CP [] pk => Ok cur
   end.
 
 Fixpoint split_lf (s : text) : list text :=            (* data.split("\n") *)
@@ -543,38 +559,36 @@ Fixpoint data_kids (first : bool) (lines : list text) : list elem :=
 Definition handle_data (data : text) (cur : cursor) : outcome cursor :=
   match cur with
   | CP frames pk => Ok (push_kids frames pk (data_kids true (split_lf data)))
-  | CAbove ADiv _ | CAbove ABody _ => Raised ETypeError
-  | CAbove ANone _ => Raised EAttributeError
   end.
 
-Fixpoint handle (attached : bool) (ts : list token) (cur : cursor) : outcome cursor :=
+Fixpoint handle (ts : list token) (cur : cursor) : outcome cursor :=
   match ts with
   | [] => Ok cur
   | t :: ts' =>
       let r := match t with
                | TData d => handle_data d cur
                | TStart n a => handle_start n a cur
-               | TEnd => handle_end attached cur
+               | TEnd n => handle_end n cur
                | TBad => Unmodelled
                end in
       match r with
-      | Ok cur' => handle attached ts' cur'
+      | Ok cur' => handle ts' cur'
       | RetNone => RetNone | Raised e => Raised e | Unmodelled => Unmodelled
       end
   end.
 
 (* children of the paragraph once the parser is discarded: open spans stay where they were attached *)
-Fixpoint close_all (extra : list elem) (frames : list (sstyle * list elem)) (pk : list elem) : list elem :=
+Fixpoint close_all (extra : list elem) (frames : list frame) (pk : list elem) : list elem :=
   match frames with
   | [] => pk ++ extra
-  | (s, k) :: fs => close_all [ESpan s (k ++ extra)] fs pk
+  | (_, s, k) :: fs => close_all [ESpan s (k ++ extra)] fs pk
   end.
 
-(* parser = _TextParser(current_p, ...); parser.feed(text); parser.close() *)
-Definition parse_text (attached : bool) (t : text) : outcome (list elem) :=
-  match handle attached (tokenize t) (CP [] []) with
+(* parser = _TextParser(current_p, ...); parser.feed(text); parser.close().  Whether current_p is attached to
+   the div makes no difference: the parser only ever touches the paragraph and the spans below it *)
+Definition parse_text (t : text) : outcome (list elem) :=
+  match handle (tokenize t) (CP [] []) with
   | Ok (CP frames pk) => Ok (close_all [] frames pk)
-  | Ok (CAbove _ pk) => Ok pk                         (* cursor left above the paragraph: P keeps what it had *)
   | RetNone => RetNone | Raised e => Raised e | Unmodelled => Unmodelled
   end.
 
@@ -594,7 +608,7 @@ Inductive stepres := Continue (s : mstate) | Stop (o : outcome (list pcue)).
 
 (* the branch taken when a blank line or the end of the file ends the text of a cue *)
 Definition finish_cue (s : mstate) : stepres :=
-  match parse_text (m_attached s) (rewrite_text (m_text s)) with
+  match parse_text (rewrite_text (m_text s)) with
   | Ok kids =>
       let done := if m_attached s
                   then m_done s ++ [mkP (fst (m_times s)) (snd (m_times s)) kids]
@@ -620,10 +634,10 @@ Definition step (s : mstate) (line : text) : stepres :=
       end
   | TEXT =>
       if is_blank line then finish_cue s
-      else Continue (mkM TEXT_MORE (m_done s) (m_times s) true line)
+      else Continue (mkM TEXT_MORE (m_done s) (m_times s) true (rstrip_crlf line ++ [10]))
   | TEXT_MORE =>
       if is_blank line then finish_cue s
-      else Continue (mkM TEXT_MORE (m_done s) (m_times s) (m_attached s) (m_text s ++ line))
+      else Continue (mkM TEXT_MORE (m_done s) (m_times s) (m_attached s) (m_text s ++ rstrip_crlf line ++ [10]))
   end.
 
 (* the `None` that _none_terminated appends *)
